@@ -666,6 +666,7 @@ loop:
 				break loop
 			}
 		case <-sc.maxRequestTimer.C:
+			verifPoint("srv.loop.reqtimer")
 			reqTimerArmed = false
 
 			// No read timeout configured means requests do not time out.
